@@ -72,6 +72,28 @@ structure SafeInv (s : St) : Prop where
   noCall : s.cur = none → preStart s = true ∨ (match s.cpc with | .exitPut _ | .exitJoin _ | .done => True | _ => False)
   batchEmpty : (match s.cpc with | .qsize2 | .getNowait | .lockRel => False | _ => True) → s.batch = []
   wids : (s.workers.map (·.wid)).Nodup
+  -- clauses added to make the invariant inductive (they hold in every reachable state, but the clauses above alone are
+  -- preserved only together with them)
+  /-- worker ids are below the counter (freshness of the successor's wid) -/
+  widLt : ∀ w ∈ s.workers, w.wid < s.widCounter
+  /-- a worker has a chunk in its hands only between `work_queue.get()` and the successful put of the result -/
+  heldPc : ∀ w ∈ s.workers, w.held.isSome →
+    (w.pc = .lockAcq ∨ w.pc = .putNowait ∨ w.pc = .putBlock ∨ (w.pc = .lockRel ∧ w.full = true))
+  /-- the process the replace thread is about to start has not been started -/
+  startFresh : ∀ nw, s.rpc = .start nw → ∀ w ∈ s.workers, w.wid = nw → w.pc = .notStarted
+  /-- no replace thread during `__enter__` -/
+  enterR : ∀ i, s.cpc = .enterStart i → s.rpc = .idle
+  /-- no feeder outside a call, nor after it has been joined -/
+  noCallF : s.cur = none → s.fpc = .idle
+  postF : (s.cpc = .rPutNone ∨ s.cpc = .rStopSet ∨ s.cpc = .rJoin) → s.fpc = .idle
+  /-- the stop event of the feeder is set only after it has left its loop -/
+  stopF : s.fStop = true → (s.fpc = .token ∨ s.fpc = .idle)
+  /-- what the consumer has written before it starts the feeder -/
+  setupStop : (s.cpc = .wrSending ∨ s.cpc = .wrDataCnt ∨ s.cpc = .fStart) → s.fStop = false
+  setupSending : (s.cpc = .wrDataCnt ∨ s.cpc = .fStart) → s.sending = true
+  setupCnt : s.cpc = .fStart → s.dataCnt = 0
+  /-- emitted entries carry call numbers seen so far -/
+  outLe : ∀ p ∈ s.out, p.1 ≤ s.callNo
 
 /-- executable twin of `SafeInv` (for fuzzing the invariant; not used in proofs) -/
 def safeCheck (s : St) : List String :=
@@ -95,7 +117,21 @@ def safeCheck (s : St) : List String :=
   bad "post" (!postLoop s || (s.sending == false && s.finished == s.fTotal)) ++
   bad "noCall" (s.cur.isSome || preStart s || (match s.cpc with | .exitPut _ | .exitJoin _ | .done => true | _ => false)) ++
   bad "batchEmpty" ((match s.cpc with | .qsize2 | .getNowait | .lockRel => true | _ => false) || s.batch == []) ++
-  bad "wids" ((s.workers.map (·.wid)).eraseDups.length == s.workers.length)
+  bad "wids" ((s.workers.map (·.wid)).eraseDups.length == s.workers.length) ++
+  bad "widLt" (s.workers.all (fun w => decide (w.wid < s.widCounter))) ++
+  bad "heldPc" (s.workers.all (fun w => w.held.isNone || w.pc == .lockAcq || w.pc == .putNowait || w.pc == .putBlock ||
+    (w.pc == .lockRel && w.full))) ++
+  bad "startFresh" (match s.rpc with
+    | .start nw => s.workers.all (fun w => w.wid != nw || w.pc == .notStarted)
+    | _ => true) ++
+  bad "enterR" (match s.cpc with | .enterStart _ => s.rpc == .idle | _ => true) ++
+  bad "noCallF" (s.cur.isSome || s.fpc == .idle) ++
+  bad "postF" (!(s.cpc == .rPutNone || s.cpc == .rStopSet || s.cpc == .rJoin) || s.fpc == .idle) ++
+  bad "stopF" (!s.fStop || fIn [.token, .idle]) ++
+  bad "setupStop" (!(s.cpc == .wrSending || s.cpc == .wrDataCnt || s.cpc == .fStart) || !s.fStop) ++
+  bad "setupSending" (!(s.cpc == .wrDataCnt || s.cpc == .fStart) || s.sending) ++
+  bad "setupCnt" (s.cpc != .fStart || s.dataCnt == 0) ++
+  bad "outLe" (s.out.all (fun p => decide (p.1 ≤ s.callNo)))
 
 end WindVerif.Pool
 
